@@ -9,6 +9,14 @@ pub fn run() {
             bad.push(format!("is_alphabetic({u:#x})"));
         }
     }
+    for u in 0u32..128 {
+        let c = char::from_u32(u).unwrap();
+        if c.is_whitespace() != (c == ' ' || ('\x09' <= c && c <= '\x0d')) { bad.push(format!("is_whitespace({u:#x})")); }
+        if c.is_numeric() != ('0' <= c && c <= '9') { bad.push(format!("is_numeric({u:#x})")); }
+        if c.is_alphanumeric() != (c.is_alphabetic() || c.is_numeric()) { bad.push(format!("is_alphanumeric({u:#x})")); }
+        if c.is_ascii_whitespace() != (c == ' ' || c == '\x09' || c == '\x0a' || c == '\x0c' || c == '\x0d') { bad.push(format!("is_ascii_whitespace({u:#x})")); }
+    }
+    for c in (0u32..0x11_0000).filter_map(char::from_u32) { if c.is_alphanumeric() != (c.is_alphabetic() || c.is_numeric()) { bad.push(format!("is_alphanumeric({:#x})", c as u32)); break; } }
     for u in (0u32..0x11_0000).filter_map(char::from_u32) {
         if u.is_ascii_digit() != ('0' <= u && u <= '9') { bad.push(format!("is_ascii_digit({:#x})", u as u32)); }
     }
